@@ -3,36 +3,58 @@
 Monitor: every case is rendered three times, under *counting subclasses* of
 `Undefined`, `StrictUndefined` and `FalsyStrictUndefined` (passed as
 `Environment(undefined=...)`).  The subclasses log every creation `(path, hint)` and
-every *touch* (any method of the base class's MRO invoked on the object, and any
-attribute read other than the passive slots).  A wrapper on `RenderContext.get` /
-`get_async` (installed on the class object) records every path looked up and decides,
-with a small independent resolver over plain dict/list/str data, whether that path
-exists; that verdict is attached to the undefined object the lookup returned.
+every *touch* (any method the undefined types or their ABC bases define, invoked on the
+object, and any attribute read other than the passive slots), the liquid2 function the
+first raising touch came from, and -- while a witness is being reported -- the site and
+result of every touch.  A wrapper on `RenderContext.get` / `get_async` (installed on the
+class object) records every path looked up and decides, with a small independent
+resolver over plain dict/list/str data, whether that path exists.
 
-Clauses (mechanism key = `<clause>:<construct>`, construct computed from the
-*minimised* witness):
+Clauses (mechanism key = `<clause>:<construct>`; the construct is computed on the
+*minimised* witness and names where the policies first diverged / which touch raised:
+`<liquid2 module.function>/<touch>`, or `<UndefinedClass>.<method>` when the same
+operation at the same place answered differently, or `no-touch@<function>`; `P` is
+`strict` or `falsy`):
 
-  default-raises            the default policy raised UndefinedError
-  strict-success-differs    StrictUndefined render succeeded, output != default output
-  falsy-success-differs     FalsyStrictUndefined render succeeded, output != default output
-  *-success-default-error   strict/falsy succeeded while the default policy failed
-  *-raises-untouched        the default run touched no undefined object (executions are
-                            identical up to the first touch) yet strict/falsy raised
-                            UndefinedError
-  *-differs-untouched       ... or ended differently (other output / other error)
+  from the property statement
+  default-raises                    the default policy raised UndefinedError
+  P-success-differs                 P render succeeded, output != default output
+  P-success-default-error           P succeeded while the default policy failed
+  P-raises-untouched                the default run touched no undefined object (executions
+                                    are identical up to the first touch) yet P raised
+  P-differs-untouched               ... or ended in a different error
   undefined-error-without-missing   UndefinedError while that run created no undefined
   undefined-error-on-complete-data  UndefinedError although every referenced path is
-                            resolvable by construction (generator) / by observation
-                            (default run created no undefined)
-  undefined-error-for-existing      the UndefinedError message is the hint of an
-                            undefined object that `get()` created for a path which the
-                            independent resolver finds in the data
-  missing-lookup-not-undefined      `get()` (no default) returned something that is not
-                            an instance of the environment's undefined type for a path
-                            the independent resolver cannot find (docs: "if a variable
-                            can not be resolved, an instance of Undefined is used
-                            instead"; anchor `RenderContext.get returns
-                            env.undefined(...)`) -- without it "strict raises" is vacuous
+                                    resolvable by construction (generator) / by
+                                    observation (default run created no undefined)
+  undefined-error-for-existing      the UndefinedError message is the hint of an undefined
+                                    that `get()` created for a path the independent
+                                    resolver finds in the data
+  P-undefined-error-on-unused       P raised although the only missing paths of the
+                                    program sit where they are not *used*: assigned /
+                                    passed to a partial, `with` or macro but never read,
+                                    dead branches, short-circuited operands, the unused
+                                    argument or the input of `default`; for falsy also
+                                    truthiness and equality tests
+
+  from the documentation of the undefined types (what "uses" means), reported under
+  their own keys so they can be told apart
+  P-raises-in-default-filter        UndefinedError came from inside the `default` filter
+                                    (migration.md: StrictUndefined "plays nicely with the
+                                    default filter"; tests/test_undefined.py)
+  falsy-raises-on-truthiness-or-equality   FalsyStrictUndefined raised inside is_truthy /
+                                    _eq (variables_and_drops.md: "can be tested for
+                                    truthiness and equality without raising")
+  P-touch-did-not-raise             an operation other than the documented quiet ones
+                                    returned normally on a strict undefined (docs: "any
+                                    operation on an undefined variable will raise")
+  missing-lookup-not-undefined      `get()` (no default) returned something that is not an
+                                    instance of the environment's undefined type for a
+                                    path the independent resolver cannot find (docs: "if a
+                                    variable can not be resolved, an instance of Undefined
+                                    is used instead"; property anchor `RenderContext.get
+                                    returns env.undefined(...)`) -- without it "strict
+                                    raises" would hold vacuously
 """
 
 from __future__ import annotations
@@ -58,29 +80,39 @@ RULE = (
     "cases = (a) every valid compliance-corpus template with its data and partials x "
     "subsets of deletions (all subsets when <= 6 candidates in thorough / <= 4 in quick, "
     "seeded samples beyond) of the variables / nested properties / list elements it "
-    "references (paths from the lookup hook of a first run plus template.analyze()), "
-    "(b) 1-3 statement programs from ~230 statement forms (outputs, ~85 filter forms with "
-    "the maybe-missing value as input or argument, 26 condition forms, default filter, "
-    "for/tablerow/case/ternary/assign/capture/include/render/with/macro/cycle/liquid/"
-    "translate, template strings, lambda filters, size/first/last, nested and computed "
-    "paths, out-of-range indexes) over a fixed fully-known data set x deletion subsets, "
+    "references (paths from the lookup hook of a first run plus template.analyze()); "
+    "(b) seeded 1-3 statement programs from 243 statement forms (outputs, 83 filter forms "
+    "with the maybe-missing value as input or argument, 25 lambda forms, 26 condition "
+    "forms, default filter incl. allow_false, for/tablerow/case/ternary/assign/capture/"
+    "include/render/with/macro/cycle/liquid/translate, template strings, array literals "
+    "holding undefined, size/first/last, nested and computed paths, out-of-range indexes) "
+    "over a fixed fully-known data set x deletion subsets; (c) a seed-independent sweep of "
+    "every statement form x each of 20 never-resolvable expressions (x 9 arrays where an "
+    "array meets the missing value) and of 57 'not used' forms x 13 missing expressions; "
     "sync and async; each case = one policy triple (Undefined, StrictUndefined, "
     "FalsyStrictUndefined). distinct = hash(source, data, mode); non-trivial = at least "
     "one variable deleted or a strict policy raised UndefinedError."
 )
 ASSUMPTIONS = [
-    "touch = a call of any method found in the undefined base class's MRO (except "
-    "__init__/__new__/__repr__/__getattribute__ and allocation hooks) or a read of any "
-    "attribute other than path/obj/hint/token/msg/__class__/__repr__; type checks "
+    "touch = a call of any method found in the undefined class's MRO below `object` "
+    "(except __init__/__new__/__repr__/__getattribute__ and allocation hooks) or a read of "
+    "any attribute other than path/obj/hint/token/msg/__class__/__repr__; type checks "
     "(isinstance / is_undefined) are not touches and behave the same under all policies",
     "the independent path resolver only decides lookups whose intermediate objects are "
     "exactly dict/list/tuple/str/int/float/bool/None and whose keys are not undefined; "
     "roots are looked up through the context's own scope chain (trusted)",
     "a candidate violation is re-executed once; cases whose default render is not "
     "reproducible (clock) are skipped and counted",
-    "non-LiquidError exceptions and LiquidErrors other than UndefinedError are compared "
-    "only for the untouched clause (the property speaks about UndefinedError and about "
+    "LiquidErrors other than UndefinedError and non-Liquid exceptions are compared only "
+    "in the untouched clause (the property speaks about UndefinedError and about "
     "successful outputs)",
+    "'not used' is decided syntactically, for a fixed list of forms only (vf/c16_gen.py "
+    "NOUSE / FALSY_NOUSE); whether e.g. a lambda over items lacking a key, or a value that "
+    "cannot influence the output, counts as a use is left to the implementation",
+    "the clauses derived from the documentation of the undefined types (see module "
+    "docstring) go beyond the literal property sentence; they have their own keys",
+    "a strict policy that silently consumes an undefined without touching it (and renders "
+    "what the default renders) is invisible to every clause",
 ]
 
 PASSIVE = frozenset(
@@ -103,7 +135,7 @@ QUIET_FALSY = frozenset(["attr:force_liquid_default", "__bool__", "__eq__", "__n
 class Log:
     """What one render did with undefined objects."""
 
-    __slots__ = ("created", "touches", "lookups", "objs", "bogus", "notundef", "decided",
+    __slots__ = ("created", "touches", "lookups", "bogus", "notundef", "decided",
                  "n_created", "n_touches", "detail", "raise_site", "silent")
 
     def __init__(self) -> None:
@@ -113,7 +145,6 @@ class Log:
         self.created: list[tuple[str, str | None]] = []
         self.touches: list[tuple[str, str]] = []
         self.lookups: set[tuple] = set()
-        self.objs: list[Any] = []
         self.bogus: list[tuple[str, str | None, str]] = []
         self.notundef: list[tuple[str, str]] = []
         self.decided = [0, 0, 0]  # exists, missing, undecided
@@ -1095,6 +1126,8 @@ def floors(tier: str) -> dict[str, int]:
         "lookups_decided_exists": 3000 * k,
         "async_triples": 300 * k,
         "set:touch_kinds": 8,
+        "set:nouse_kinds": 50,
+        "set:statement_kinds": 150,
         "sweep_programs": 6000,
         "nouse_programs": 800 if tier == "quick" else 8000,
         "nouse_falsy_ok_after_touch": 400 if tier == "quick" else 3000,
@@ -1173,8 +1206,6 @@ def _gen(r: Runner, spec: dict[str, Any], ctx: Ctx) -> None:
         if rng.random() < 0.22:
             stmts, pol = G.nouse_program(rng)
             nouse, complete = tuple(pol), False
-            for pname in pol:
-                ctx.seen("nouse_kinds", stmts and [k for k, _ in stmts if "nouse" in k][0])
         else:
             total = rng.random() < 0.45
             stmts, complete = G.program(rng, total)
@@ -1184,7 +1215,7 @@ def _gen(r: Runner, spec: dict[str, Any], ctx: Ctx) -> None:
             parts.append(text + (sep if j < len(stmts) - 1 else ""))
         src = "".join(parts)
         for kind, _ in stmts:
-            ctx.seen("statement_kinds", kind)
+            ctx.seen("nouse_kinds" if "nouse" in kind else "statement_kinds", kind)
         data = G.base_data()
         mode = "async" if pi % 4 == 3 else "sync"
         t = r.parse(src, tpls, "shopify")
@@ -1230,7 +1261,7 @@ def _sweep(r: Runner, spec: dict[str, Any], ctx: Ctx) -> None:
                 break
             r.case(src, tpls, G.base_data(), mode, "shopify", False, 0, [src], nouse=nouse)
             ctx.count("sweep_programs")
-        ctx.seen("statement_kinds", kind)
+        ctx.seen("nouse_kinds" if "nouse" in kind else "statement_kinds", kind)
         last = {"kind": "sweep", "form": kind, "source": src}
     if last:
         ctx.sample(last)
